@@ -74,6 +74,14 @@ func c15Scenarios(tier string) (rulesSc, lockSc []CScenario) {
 		lockSc = append(lockSc, pre, ext)
 		rulesSc = append(rulesSc, pre, ext)
 	}
+	// A batch of 200 distinct keys (alone it must complete; any fixed-size per-key structure is overrun), and the same
+	// against requests on keys from its middle and end.
+	big := []CScenario{
+		{Name: "atts[200 keys]", Bound: 1, Threads: [][]CReq{{attsN(keyRange(0, 200), 0, 1)}}},
+		{Name: "atts[200 keys]||att(100);atts[199 0]", Bound: 1, Threads: [][]CReq{{attsN(keyRange(0, 200), 0, 1)}, {att1(100, 1, 2), attsN([]int{199, 0}, 2, 3)}}},
+	}
+	lockSc = append(lockSc, big...)
+	rulesSc = append(rulesSc, big[1])
 	rulesSc = append(rulesSc,
 		CScenario{Name: "atts[0 1]||atts[1 0]||att(1)", Threads: [][]CReq{{attsN([]int{0, 1}, 0, 1)}, {attsN([]int{1, 0}, 1, 2)}, {att1(1, 2, 3)}}},
 		CScenario{Name: "atts[0 1 2]||prop(2)||att(0)", Threads: [][]CReq{{attsN([]int{0, 1, 2}, 0, 1)}, {prop1(2, 5)}, {att1(0, 1, 2)}}},
